@@ -34,6 +34,7 @@ type Program struct {
 	funcs     map[string]*ssa.Function // by short name
 	wfCache   map[*ssa.Function]int
 	externOK  map[string]bool
+	unitExtern []string
 	specDir   string
 	repo      string
 	contractSource map[string]string // pkg short -> "repo" | "mirror"
@@ -112,10 +113,25 @@ func loadProgram(repo, specDir, mirrorDir string, patterns []string, dir string)
 		return string(data), nil
 	}
 	p.preludes = map[string]string{}
+	// every package sees all quantifier-free spec files (contracts of callees in other packages may
+	// mention them); files with quantified axioms are included only for packages importing them
+	for _, f := range p.contracts.Imports {
+		if _, err := load(f); err != nil {
+			return nil, err
+		}
+	}
 	mk := func(files []string) (string, error) {
 		var sb strings.Builder
 		seen := map[string]bool{}
-		for _, f := range append([]string{"builtin.smt2"}, files...) {
+		sorts := map[string]bool{}
+		order := []string{"builtin.smt2"}
+		for _, f := range p.contracts.Imports {
+			if !strings.Contains(loaded[f], "(forall") {
+				order = append(order, f)
+			}
+		}
+		order = append(order, files...)
+		for _, f := range order {
 			if seen[f] {
 				continue
 			}
@@ -124,7 +140,17 @@ func loadProgram(repo, specDir, mirrorDir string, patterns []string, dir string)
 			if err != nil {
 				return "", err
 			}
-			sb.WriteString("; ---- " + f + "\n" + t + "\n")
+			sb.WriteString("; ---- " + f + "\n")
+			for _, ln := range strings.Split(t, "\n") {
+				if strings.HasPrefix(ln, "(define-sort ") {
+					name := strings.Fields(ln)[1]
+					if sorts[name] {
+						continue
+					}
+					sorts[name] = true
+				}
+				sb.WriteString(ln + "\n")
+			}
 		}
 		return sb.String(), nil
 	}
@@ -300,6 +326,11 @@ func (p *Program) inModule(f *ssa.Function) bool {
 }
 
 func (p *Program) allowExtern(name string) bool {
+	for _, k := range p.unitExtern {
+		if strings.HasPrefix(name, k) || strings.Contains(name, k) {
+			return true
+		}
+	}
 	for k := range p.externOK {
 		if strings.HasPrefix(name, k) || strings.Contains(name, k) {
 			return true
